@@ -66,6 +66,28 @@ Theorem C10_poly_defined_in_bounds : forall eps eta low up indpb ind,
 Proof. exact mut_poly_defined_in_bounds. Qed.
 Print Assumptions C10_poly_defined_in_bounds.
 
+(* ---- over R the final clamp min(max(c, xl), xu) never acts -------------------------------------------
+   bounded SBX, one locus (a, b = the parents' genes): either both are returned unchanged, or the children
+   are the two UNCLIPPED values c1 <= (a+b)/2 <= c2 (in either order), already inside [xl, xu]
+   (because beta_q <= beta); polynomial mutation: delta_q lies in [-delta_1, delta_2].
+   So the clamp only ever corrects floating-point rounding. *)
+Theorem C10_sbx_bounded_gene_shape : forall eps, 0 <= eps -> forall eta xl xu a b,
+  0 <= eta -> xl <= a <= xu -> xl <= b <= xu ->
+  spec 3 (sbxb_gene (ROps eps) eta xl xu a b)
+    (fun c => c = (a, b) \/
+              exists c1 c2, (c = (c1, c2) \/ c = (c2, c1)) /\
+                            xl <= c1 <= (a + b) / 2 /\ (a + b) / 2 <= c2 <= xu).
+Proof. exact sbxb_gene_shape. Qed.
+Print Assumptions C10_sbx_bounded_gene_shape.
+
+Theorem C10_poly_gene_shape : forall eps eta indpb xl xu x,
+  0 <= eta -> xl < xu -> xl <= x <= xu ->
+  spec 2 (poly_gene (ROps eps) eta indpb xl xu x)
+    (fun y => y = x \/ exists dq, - ((x - xl) / (xu - xl)) <= dq <= (xu - x) / (xu - xl) /\
+                                  y = x + dq * (xu - xl) /\ xl <= y <= xu).
+Proof. exact poly_gene_shape. Qed.
+Print Assumptions C10_poly_gene_shape.
+
 (* ---- sums: c1_i + c2_i = x1_i + x2_i at every locus, for ANY event stream (any gamma / beta) ---- *)
 Theorem C10_blend_sum : forall eps alpha ind1 ind2 s c1 c2 s',
   cx_blend (ROps eps) alpha ind1 ind2 s = Ok ((c1, c2), s') ->
@@ -149,6 +171,14 @@ Theorem C10_eslognormal_indpb0_identity : forall eps c g st s g' st' s', draws_o
   mut_es_lognormal (ROps eps) c 0 g st s = Ok ((g', st'), s') -> g' = g /\ st' = st.
 Proof. exact mut_es_lognormal_indpb0. Qed.
 Print Assumptions C10_eslognormal_indpb0_identity.
+
+(* ... and with indpb = 0 it does return on every non-empty individual: the stream holds the one
+   random.gauss(0, 1) drawn before the loop, then one random.random() per gene *)
+Theorem C10_eslognormal_indpb0_defined : forall eps c g st z us,
+  g <> [] -> Forall in01 us -> (length g <= length us)%nat ->
+  exists us', mut_es_lognormal (ROps eps) c 0 g st (EGauss 0 1 z :: rs us) = Ok ((g, st), rs us').
+Proof. exact mut_es_lognormal_indpb0_defined. Qed.
+Print Assumptions C10_eslognormal_indpb0_defined.
 
 (* ---- all seven operators return the very objects they were given (individual and strategy list) ---- *)
 Theorem C10_same_objects : forall eps,
